@@ -5,5 +5,6 @@ import NflowsModel.Properties.C16M
 import NflowsModel.Properties.C16L
 import NflowsModel.Properties.C16O
 import NflowsModel.Properties.C16F
+import NflowsModel.Properties.C16S
 
 #audit_namespace Properties.C16
